@@ -213,6 +213,7 @@ func runEmit(_ *testing.T, e Emit) engine.Verdict {
 	wantParams := []byte(e.Params)
 	var rec []byte
 	var wantID string
+	var wantIDs []string
 	switch e.Via {
 	case "call", "notify", "batch":
 		tp := newTap()
@@ -301,16 +302,22 @@ func runEmit(_ *testing.T, e Emit) engine.Verdict {
 		<-tp.got
 		cli.Close()
 		rec = tp.records()[0]
-	case "bridge":
-		b := jhttp.NewBridge(handler.Map{"m": func(ctx context.Context, req *jrpc2.Request) (any, error) {
-			if e.Code != 0 {
-				return nil, &jrpc2.Error{Code: jrpc2.Code(e.Code), Message: e.Message}
-			}
-			return toValue(e), nil
-		}}, nil)
+	case "bridge", "bridgebatch":
+		b := jhttp.NewBridge(handler.Map{"note": func(ctx context.Context, req *jrpc2.Request) (any, error) { return nil, nil },
+			"m": func(ctx context.Context, req *jrpc2.Request) (any, error) {
+				if e.Code != 0 {
+					return nil, &jrpc2.Error{Code: jrpc2.Code(e.Code), Message: e.Message}
+				}
+				return toValue(e), nil
+			}}, nil)
 		defer b.Close()
 		wantID = e.ID
 		body := fmt.Sprintf(`{"jsonrpc":"2.0","id":%s,"method":"m"}`, e.ID)
+		if e.Via == "bridgebatch" {
+			// calls interleaved with notifications: each reply bears its own call's id
+			wantIDs = []string{e.ID, `"second"`}
+			body = fmt.Sprintf(`[{"jsonrpc":"2.0","method":"note"},{"jsonrpc":"2.0","id":%s,"method":"m"},{"jsonrpc":"2.0","method":"note"},{"jsonrpc":"2.0","id":"second","method":"m"}]`, e.ID)
+		}
 		req := httptest.NewRequest("POST", "/", strings.NewReader(body))
 		req.Header.Set("Content-Type", "application/json")
 		w := httptest.NewRecorder()
@@ -328,10 +335,16 @@ func runEmit(_ *testing.T, e Emit) engine.Verdict {
 	if es, ok := refjson.Elements(rec); ok {
 		items = es
 	}
+	if e.Via == "bridgebatch" && len(items) != 2 {
+		return fail("batch-shape", "bridge reply to two calls and two notifications is %s", engine.Q(rec))
+	}
 	if e.Via == "batch" && len(items) != 2 {
 		return fail("batch-shape", "batch of two emitted as %s", engine.Q(rec))
 	}
-	for _, it := range items {
+	for itemIdx, it := range items {
+		if e.Via == "bridgebatch" {
+			wantID = wantIDs[itemIdx]
+		}
 		m, why := decodeMsg(it)
 		if why != "" {
 			return fail("not-jsonrpc", "emitted %s: %s", engine.Q(it), why)
@@ -356,7 +369,7 @@ func runEmit(_ *testing.T, e Emit) engine.Verdict {
 			if len(m.Params) != 0 && !jsonEq(prs[0].Params, m.Params) {
 				return fail("own-parser-disagrees", "ParseRequests params %s differ from the wire %s", prs[0].Params, m.Params)
 			}
-		case "response", "cbreply", "bridge":
+		case "response", "cbreply", "bridge", "bridgebatch":
 			if !refrpc.IDEqual(string(m.ID), wantID) {
 				return fail("id-differs", "id on the wire is %s, the request's id is %s", m.ID, wantID)
 			}
@@ -465,7 +478,7 @@ func genJSON(t *rapid.T, depth int, ws bool) string {
 }
 
 func genEmit(t *rapid.T) Emit {
-	e := Emit{Via: rapid.SampledFrom([]string{"call", "notify", "batch", "response", "errresponse", "push", "callback", "cbreply", "bridge"}).Draw(t, "via")}
+	e := Emit{Via: rapid.SampledFrom([]string{"call", "notify", "batch", "response", "errresponse", "push", "callback", "cbreply", "bridge", "bridgebatch"}).Draw(t, "via")}
 	e.Method = genText(t, "m", 1)
 	e.Raw = rapid.Bool().Draw(t, "raw")
 	structured := e.Via == "call" || e.Via == "notify" || e.Via == "batch" || e.Via == "push" || e.Via == "callback"
@@ -480,7 +493,7 @@ func genEmit(t *rapid.T) Emit {
 		e.Params = json.RawMessage(v)
 	}
 	e.ID = rapid.SampledFrom([]string{"1", "0", "-0", "1e3", "1.5", `""`, `"1"`, `"a\nb"`, `"😀"`, "12345678901234567890", `"` + strings.Repeat("x", 300) + `"`}).Draw(t, "id")
-	if e.Via == "errresponse" || ((e.Via == "cbreply" || e.Via == "bridge") && rapid.Bool().Draw(t, "iserr")) {
+	if e.Via == "errresponse" || ((e.Via == "cbreply" || e.Via == "bridge" || e.Via == "bridgebatch") && rapid.Bool().Draw(t, "iserr")) {
 		e.Code = rapid.SampledFrom([]int{1, -1, -32000, -32099, 2147483647, -2147483648, -32603, 7}).Draw(t, "code")
 		e.Message = genText(t, "msg", 1)
 	}
